@@ -169,6 +169,10 @@ NUMS = [1, -1, 15.995, -18.0106, 100, 0.5, 42.0106, 79.97, 1.5, -17.03, 3.14, 57
 FORMULAS = ['Formula:C2H3NO', 'Formula:[13C2]H4', 'Formula:C-1H2', 'Formula:H2O', 'Formula:[13C2]C-2H3N', 'Formula:C2H2O',
             'Formula:HPO3', 'Formula:[D3]C', 'Formula:[15N]N-1', 'Formula:[18O]O-1', 'Formula:C6H10O5', 'Formula:SO3',
             'Formula:CH2', 'Formula:H-1N-1O', 'Formula:[13C6][15N2]C-6N-2']
+# the same element / isotope in several components, repeated inside one component, negative counts, several isotope blocks
+FORMULAS += ['Formula:C2H2[13C2]H3O', 'Formula:[13C2]N[13C]H3', 'Formula:C2H2C3', 'Formula:[13C2][13C-1]H', 'Formula:C-1C-1H2',
+             'Formula:[D2][D3]H-5', 'Formula:H2[15N]H-1[15N2]O', 'Formula:O[18O]O[18O2]', 'Formula:[13C]C[13C]C[13C]C',
+             'Formula:S[34S]S-2[34S2]H', 'Formula:N2H[2H3]N-1H2']
 GLYCANS = ['Glycan:Hex', 'Glycan:HexNAc2Hex3', 'Glycan:Hex2Fuc', 'Glycan:HexNAc', 'Glycan:Neu5Ac', 'Glycan:HexNAc2Hex3Neu5Ac1',
            'Glycan:Fuc', 'Glycan:Hex5HexNAc4']
 NAMED = ['Oxidation', 'Phospho', 'Acetyl', 'Carbamidomethyl', 'Methyl', 'Deamidated', 'U:Oxidation', 'UNIMOD:21',
@@ -196,12 +200,18 @@ def psimod_entries():
 
 
 def gen_formula(rng, isotopes=True):
+    """random ProForma formula: elements may repeat across and inside components, several isotope blocks, negative counts"""
     parts = []
-    for el in rng.sample(['C', 'H', 'N', 'O', 'S', 'P'], rng.randint(1, 4)):
+    k = rng.randint(1, 5)
+    for _ in range(k):
+        el = rng.choice(['C', 'H', 'N', 'O', 'S', 'P'])     # with replacement: repeats are wanted
         n = rng.choice([1, 2, 3, 5, 12, -1, -2])
-        parts.append(f'{el}{n}')
-    if isotopes and rng.random() < 0.4:
-        parts.append('[%s%d]' % (rng.choice(['13C', '15N', '18O', 'D', '2H', '34S', '17O']), rng.randint(1, 6)))
+        parts.append(f'{el}{n}' if rng.random() < 0.85 or n != 1 else el)
+    if isotopes:
+        for _ in range(rng.choice([0, 0, 1, 1, 2, 3])):
+            iso = rng.choice(['13C', '15N', '18O', 'D', '2H', '34S', '17O', '13C', '15N'])
+            n = rng.choice([1, 2, 3, 6, -1])
+            parts.append('[%s%s]' % (iso, '' if n == 1 and rng.random() < 0.3 else n))
     rng.shuffle(parts)
     return 'Formula:' + ''.join(parts)
 
